@@ -304,11 +304,35 @@ pub fn explore(ctx: &Ctx) {
         }
         done.store(true, Ordering::SeqCst);
     });
+    // the midnight frontiers of every offset key, to the last bit (see c11::midnight_frontier_minutes):
+    // "the hour is exactly 24.0", "the hour is the smallest negative number" - in all four rounding modes
+    let bs = crate::c11::bases(ctx.tier);
+    let mut fj = vec![];
+    for bi in 0..bs.len() {
+        for key in SIX {
+            fj.push((bi, key));
+        }
+    }
+    ctx.alphabet("midnight_frontier", json!({"bases": bs.len(), "keys": 6, "what": "offsets at which the intermediate hour crosses -24/0/24/48, bisected to adjacent f64s, +-64 ulp on both sides, x 4 rounding modes"}));
+    par_jobs(ctx, &fj, |(bi, key), l| {
+        let b = &bs[*bi];
+        let br = pt(&b.params, b.site.loc(), b.date, None);
+        let slot = Slot::new();
+        for x in crate::c11::midnight_frontier_minutes(b, &br, *key) {
+            for mode in roundings {
+                let mut p = b.params.clone();
+                p.minutes.insert(*key, x);
+                p.round_seconds = mode;
+                guarded(ctx, l, &slot, &PtCase::new(&p, b.site, b.date));
+                l.count("midnight_frontier_calls", 1);
+            }
+        }
+    });
     let _ = std::panic::take_hook();
 }
 
 pub fn replay(ctx: &Ctx, _clause: &str, case: &Value) {
-    let c: PtCase = serde_json::from_value(case.clone()).expect("case");
+    let c: PtCase = serde_json::from_value::<PtCase>(case.clone()).map(PtCase::fix).expect("case");
     let mut l = Local::default();
     let slot = Slot::new();
     // hang detection in replay: run in a thread and wait
